@@ -340,8 +340,8 @@ func checkDispositionTable(r *Run, prog *Program, pfx string, complement, spec b
 func checkErrFalse(r *Run, prog *Program, a *Anchors, pfx string) {
 	set := map[*ssa.Function]bool{}
 	for f := range a.EvalSet {
-		if isBoolErr(f.Signature) {
-			set[f] = true
+		if isVerdict(f.Signature) {
+			set[f] = true // (bool, error), or the two grouped in a struct
 		}
 	}
 	r.Floor(pfx+".error-comes-with-false", 30)
@@ -362,7 +362,16 @@ func checkErrFalse(r *Run, prog *Program, a *Anchors, pfx string) {
 			if sm.Panic != nil {
 				continue // explicit panics are C09 (ii)
 			}
-			b, e := sm.Results[0], sm.Results[1]
+			b, e, okShape := verdictOf(fn.Signature, sm.Results)
+			if !okShape || b == nil || e == nil {
+				continue
+			}
+			if e.K == sStruct && e.A == nil && len(e.F) == 0 {
+				e = nilSym() // the error field of a literal that does not set it
+			}
+			if b.K == sStruct && b.A == nil && len(b.F) == 0 {
+				b = &Sym{K: sConst, C: constant.MakeBool(false)}
+			}
 			key := fmt.Sprintf("%s:return(%s,%s)", fn.Name(), shortKey(b), shortKey(e))
 			ok, why := false, ""
 			ec := errClass(sm, e)
@@ -384,6 +393,18 @@ func checkErrFalse(r *Run, prog *Program, a *Anchors, pfx string) {
 					ok = true
 				} else {
 					why = "pair forwarded from " + callName(call.Common()) + ", which is not a (bool, error) function of the evaluation path"
+				}
+			case b.K == sField && e.K == sField && b.A != nil && e.A != nil && b.A.Key() == e.A.Key() && b.A.K == sCall:
+				// both fields of one grouped verdict, as a function of the evaluation path returned it
+				callee, _ := calleeOfSym(b.A)
+				of, ef := "", ""
+				if callee != nil {
+					of, ef = verdictFields(callee.Signature)
+				}
+				if callee != nil && (set[callee] || callee == fn) && b.Str == of && e.Str == ef {
+					ok = true
+				} else {
+					why = "verdict forwarded from something that is not a function of the evaluation path"
 				}
 			default:
 				why = fmt.Sprintf("returns (%s, %s) where the error may be non-nil (%s) and the boolean is not known to be false", b.Key(), e.Key(), ec)
